@@ -1672,6 +1672,7 @@ ly_time_str2time(const char *value, time_t *time, char **fractions_s)
     const char *frac;
     char *ptr;
     int64_t shift, shift_m;
+    ly_bool neg;
     time_t t;
 
     /* all the characters up to the one after seconds are accessed */
@@ -1747,6 +1748,7 @@ ly_time_str2time(const char *value, time_t *time, char **fractions_s)
         shift = 0;
     } else {
         value += i;
+        neg = (value[0] == '-') ? 1 : 0;
         shift = strtol(value, &ptr, 10);
         if ((shift > 23) || (shift < -23)) {
             LOGERR(NULL, LY_EINVAL, "Invalid date-and-time timezone hour \"%" PRIi64 "\".", shift);
@@ -1765,8 +1767,8 @@ ly_time_str2time(const char *value, time_t *time, char **fractions_s)
         }
         shift_m *= 60; /* convert from minutes to seconds */
 
-        /* correct sign */
-        if (shift < 0) {
+        /* correct sign, the hours may be zero ("-00:30") */
+        if (neg) {
             shift_m *= -1;
         }
 
